@@ -17,7 +17,9 @@ MANIFEST = dict(
          "members are expressions; TLC evaluates each on 36 rows and checks the value against the declarative SQL definition "
          "(OR of equalities under Kleene logic). Each case is executed on SQLite as bound expanding parameter, with literal_binds, "
          "re-bound on a warm compiled cache with a different list length, with the generic (non-SQLite) empty-set rendering, and as "
-         "the literal text compiled for postgresql/mysql/mssql/oracle; in SELECT, WHERE and HAVING position.",
+         "the literal text compiled for postgresql/mysql/mssql/oracle; in SELECT, WHERE and HAVING position. Typed dimension: the same cases "
+         "against tables whose columns carry the integers through types with bind and result processors (a +100 TypeDecorator, DateTime) in "
+         "first / last / every tuple position and for scalar IN - bound, literal_binds and warm cache.",
     design_ref="3.11, 4 (C07), Appendix K",
     note="trusted: TLC; SQLite as executor; Ev calibrated first against SQLite on the explicit OR-of-equalities rendering and on native IN "
          "(disagreement = exit 2). Only SQLite executes: other dialects' renderings are executed on SQLite as text (scalar IN only).",
@@ -64,6 +66,41 @@ def _setup(work):
     return eng, geng, t
 
 
+# ---- the typed dimension: the same (a, b) rows carried by column types that have bind AND result processors.  Equality on the
+#      encoded values is equality on the integers (the encodings are injective, NULL stays NULL), so the specification's values
+#      are unchanged; what is exercised is that every member of the list reaches the database through its column's bind processor.
+TYPED = {"PI": "a: +100 TypeDecorator, b: Integer", "IP": "a: Integer, b: +100 TypeDecorator", "PP": "both +100 TypeDecorator",
+         "DI": "a: DateTime, b: Integer", "ID": "a: Integer, b: DateTime"}
+
+
+def _typed_tables(md):
+    """{label: (table, {column index: int -> python value}, positions whose type has processors)}"""
+    import datetime
+    import sqlalchemy as sa
+
+    class Plus100(sa.TypeDecorator):
+        """stores v as v + 100"""
+        impl = sa.Integer
+        cache_ok = True
+
+        def process_bind_param(self, value, dialect):
+            return None if value is None else value + 100
+
+        def process_result_value(self, value, dialect):
+            return None if value is None else value - 100
+
+    def day(v):
+        return datetime.datetime(2024, 1, 10, 12, 0, 0) + datetime.timedelta(days=v)
+
+    kinds = {"P": (Plus100, None), "D": (sa.DateTime, day), "I": (sa.Integer, None)}
+    out = {}
+    for label in TYPED:
+        ta, tb = kinds[label[0]], kinds[label[1]]
+        tbl = sa.Table("t_" + label.lower(), md, sa.Column("id", sa.Integer, primary_key=True), sa.Column("a", ta[0]), sa.Column("b", tb[0]))
+        out[label] = (tbl, {i: f for i, f in ((0, ta[1]), (1, tb[1])) if f}, {i for i in (0, 1) if label[i] != "I"})
+    return out
+
+
 def _worker(chk, fams, rows, idx):
     import warnings
     warnings.simplefilter("ignore")        # "rendering literal NULL" SAWarnings: NULL members are the point here
@@ -71,16 +108,17 @@ def _worker(chk, fams, rows, idx):
     import sqlalchemy as sa
     from sqlalchemy.dialects import mssql, mysql, oracle, postgresql
     eng, geng, t = _setup(chk.work)
+    typed = _typed_tables(t.metadata)
     xd = {"postgresql": postgresql.dialect(), "mysql": mysql.dialect(), "mssql": mssql.dialect(), "oracle": oracle.dialect()}
     allc = [(f, c) for f in fams for c in f.cases]
-    out = dict(fam={}, viol=[], evals=0, counts={}, nontrivial=[], samples=[], hits=0, miss=0, vacuous=[], errors=0)
+    out = dict(typed={}, typed_hits=0, typed_miss=0, fam={}, viol=[], evals=0, counts={}, nontrivial=[], samples=[], hits=0, miss=0, vacuous=[], errors=0)
     with eng.connect() as conn, geng.connect() as gconn:
         for ci in idx:
             fam, c = allc[ci]
             lo, hi = c.lo, c.lo + len(c.x) - 1
             ids = list(range(lo, hi + 1))
 
-            def stmt_for(expr, pos):
+            def stmt_for(expr, pos, t=t):
                 if pos == "select":
                     return sa.select(t.c.id, expr.label("v")).where(t.c.id.between(lo, hi)).order_by(t.c.id)
                 if pos == "where":
@@ -118,7 +156,7 @@ def _worker(chk, fams, rows, idx):
             key = "%s/%s/%d/%s" % (inn.k, form, min(nlist, 1), has_null)
             out["counts"][key] = out["counts"].get(key, 0) + 1
 
-            def check(got, pos, mode, sqltext=None):
+            def check(got, pos, mode, sqltext=None, types="II"):
                 exp = expect_sel if pos == "select" else expect_match
                 out["evals"] += len(exp)
                 if got != exp:
@@ -128,10 +166,11 @@ def _worker(chk, fams, rows, idx):
                         i = 0
                     err = isinstance(g, str)
                     out["viol"].append((
-                        dict(base, position=pos, mode=mode, outcome="error" if err else "value"),
-                        "%s in %s position, delivery %s: row (a, b)=%r gives %r, SQL semantics (SqlExpr.tla) %r [%s]"
-                        % (c.node, pos, mode, rows[lo - 1 + i][:2], g, exp[i], (sqltext or "").replace("\n", " ")),
-                        dict(tokens=c.tokens, position=pos, mode=mode, expected=exp, got=got, sql=sqltext)))
+                        dict(base, position=pos, mode=mode, outcome="error" if err else "value", column_types=types),
+                        "%s in %s position, delivery %s%s: row (a, b)=%r gives %r, SQL semantics (SqlExpr.tla) %r [%s]"
+                        % (c.node, pos, mode, "" if types == "II" else ", column types %s (%s)" % (types, TYPED[types]),
+                           rows[lo - 1 + i][:2], g, exp[i], (sqltext or "").replace("\n", " ")),
+                        dict(tokens=c.tokens, position=pos, mode=mode, column_types=types, expected=exp, got=got, sql=sqltext)))
 
             positions = ["select", "where"] + (["having"] if form == "bare" else [])
             bld = sx.Builder(t.c, fam.strlits, table=t, variant=ci)
@@ -183,6 +222,35 @@ def _worker(chk, fams, rows, idx):
                     except sa.exc.SQLAlchemyError as e:
                         got = ["%s: %s" % (type(e).__name__, str(e).splitlines()[0][:120])]
                     check(got, "select", "text-of-" + dn, text)
+            # F. the typed dimension: the same case against tables whose columns carry the integers through bind / result processors,
+            #    with the processed type in first / last / every position of the tuple; bound, literal_binds and warm cache
+            if all(m.k == "lit" for m in members) and (tup or inn.kids[0].k == "col"):
+                for tl, (tt, conv, processed) in typed.items():
+                    if not tup and 0 not in processed:
+                        continue                 # scalar IN over column a: only where a has a processed type
+                    out["typed"][tl] = out["typed"].get(tl, 0) + 1
+                    tb = sx.Builder(tt.c, fam.strlits, table=tt, variant=ci, conv=conv)
+                    for pos in ("select", "where"):
+                        stt = stmt_for(tb.build(c.node), pos, tt)
+                        check(observe(lambda: conn.execute(stt), pos), pos, "bound", types=tl)
+                        try:
+                            ttext = str(stt.compile(eng, compile_kwargs={"literal_binds": True}))
+                            check(observe(lambda: conn.exec_driver_sql(ttext), pos), pos, "literal_binds", ttext, types=tl)
+                        except sa.exc.CompileError as e:
+                            check(["CompileError: %s" % e], pos, "literal_binds", types=tl)
+                        wls = [[_lit(2)] * ((0 if nlist > 0 else 2) * (2 if tup else 1))]
+                        if not expanding and nlist > 0:
+                            wls.append([m if m.v == sx.NULL else _lit(2) for m in members])
+                        for wl in wls:
+                            cache = {}
+                            c2 = conn.execution_options(compiled_cache=cache)
+                            c2.execute(stmt_for(tb.build(_with_list(c.node, inn, wl)), pos, tt)).fetchall()
+                            n1 = len(cache)
+                            st4 = stmt_for(tb.build(c.node), pos, tt)
+                            got = observe(lambda: c2.execute(st4), pos)
+                            hit = len(cache) == n1
+                            out["typed_hits" if hit else "typed_miss"] += 1
+                            check(got, pos, "warm-cache" if hit else "cold-after-other-shape", types=tl)
             if ci % 97 == 13:
                 out["samples"].append(dict(expr=repr(c.node), sql=str(bld.build(c.node).compile(eng)), rows_ab=[r[:2] for r in rows[lo - 1:lo + 5]],
                                            expected=c.x[:6]))
@@ -197,6 +265,21 @@ def main(chk):
     fams = [sx.family(chk, "c07", workers=4)]      # InScalar + InTuple + InExpr in one TLC run
     rows = fams[0].rows
     eng, t = sx.make_db(os.path.join(chk.work, "c07.db"), rows)
+    # the typed tables: the (a, b) rows inserted through the column types; the stored +100 values are verified at driver level
+    import sqlalchemy as sa
+    tmd = sa.MetaData()
+    typed = _typed_tables(tmd)
+    tmd.create_all(eng)
+    nint = len(fams[0].cases[0].x)          # the 36 rows that vary (a, b)
+    with eng.begin() as conn:
+        for tl, (tt, conv, _processed) in typed.items():
+            conn.execute(tt.insert(), [dict(id=i + 1, a=None if r[0] is None else conv.get(0, int)(r[0]),
+                                            b=None if r[1] is None else conv.get(1, int)(r[1])) for i, r in enumerate(rows[:nint])])
+        raw = conn.exec_driver_sql("SELECT a, b FROM t_pp ORDER BY id").fetchall()
+        if [tuple(r) for r in raw] != [tuple(None if v is None else v + 100 for v in r[:2]) for r in rows[:nint]]:
+            chk.machinery("typed table t_pp does not hold v + 100")
+        if not isinstance(conn.exec_driver_sql("SELECT b FROM t_id WHERE id = 1").scalar(), str):
+            chk.machinery("typed table t_id does not hold DateTime strings")
     # ---- calibration: the specification against SQLite itself (never a verdict)
     t1 = time.time()
     ncal = 0
@@ -214,7 +297,8 @@ def main(chk):
     famc = {}
     nontrivial = set()
     samples = []
-    evals = cache_hits = cache_miss = errors = 0
+    evals = cache_hits = cache_miss = errors = typed_hits = 0
+    typedc = {}
     for o in res:
         for sig, what, rp in o["viol"]:
             chk.violation(sig, what, rp)
@@ -227,6 +311,9 @@ def main(chk):
         evals += o["evals"]
         cache_hits += o["hits"]
         cache_miss += o["miss"]
+        typed_hits += o["typed_hits"]
+        for k, v in o["typed"].items():
+            typedc[k] = typedc.get(k, 0) + v
         errors += o["errors"]
         if o["vacuous"]:
             chk.machinery("warm-cache mode vacuous: " + o["vacuous"][0])
@@ -239,11 +326,16 @@ def main(chk):
                 chk.machinery("vacuous: no %s case with a NULL member in form %s" % (op, form))
     if cache_hits == 0:
         chk.machinery("vacuous: warm-cache mode never hit the compiled cache")
+    for tl in TYPED:
+        if not typedc.get(tl):
+            chk.machinery("vacuous: no case was run against the typed table %s" % tl)
+    if typed_hits == 0:
+        chk.machinery("vacuous: warm-cache mode never hit the compiled cache on the typed tables")
     states = sum(f.tlc.distinct for f in fams)
     return chk.finish(
         dict(states=states, transitions=sum(f.tlc.generated for f in fams), traces_validated_against_impl=ncases,
              distinct_nontrivial=len(nontrivial), evaluations=evals, calibration_evaluations=ncal, warm_cache_hits=cache_hits,
-             cold_after_other_shape=cache_miss, executions_raising=errors, samples=samples[:6], cases_per_family=famc, phase_wall_s=dict(tlc=round(t1 - t0, 1), calibration=round(t2 - t1, 1), replay=round(t3 - t2, 1)),
+             cold_after_other_shape=cache_miss, executions_raising=errors, samples=samples[:6], cases_per_family=famc, typed_cases=typedc, typed_warm_cache_hits=typed_hits, phase_wall_s=dict(tlc=round(t1 - t0, 1), calibration=round(t2 - t1, 1), replay=round(t3 - t2, 1)),
              tlc_runs=[dict(family=f.name, distinct=f.tlc.distinct, generated=f.tlc.generated, wall_s=round(f.tlc.wall, 1)) for f in fams],
              exhaustive=True,
              rule="one case per TLC initial state (left operand x member list x in/notin x bare/NOT/CASE); each evaluated on 36 rows; "
